@@ -408,7 +408,9 @@ pub fn cmd_emit_crates(args: &[String]) {
                         // libninja's own examples under crate-unique names, so that they can be run as well
                         let mut ops = serde_json::Map::new();
                         for o in &h.operations {
-                            ops.insert(hx(&o.name), serde_json::json!([o.method, o.path]));
+                            let doc_op = spec.paths.iter().find(|pi| pi.path == o.path).and_then(|pi| pi.ops.iter().find(|x| x.method == o.method));
+                            let body = doc_op.and_then(|d| crate::execgen::declared_body_props(spec, d));
+                            ops.insert(hx(&o.name), serde_json::json!([o.method, o.path, body]));
                             let src = d.join("examples").join(format!("{}.rs", o.file_name()));
                             if let Ok(text) = std::fs::read_to_string(&src) {
                                 let name = format!("lnvx_{}_{}", id, o.file_name());
